@@ -458,6 +458,16 @@ where
             "glwe secret distribution is NONE (have you prepared the key?)"
         );
 
+        // The limbs of the plaintext are added to the body as they are: both must use the same radix.
+        if let Some((pt, _)) = pt {
+            assert_eq!(
+                pt.to_ref().base2k().as_usize(),
+                base2k,
+                "pt.base2k(): {} != ct base2k: {base2k}",
+                pt.to_ref().base2k()
+            );
+        }
+
         let size: usize = ct.size();
 
         let (mut c0, scratch_1) = scratch.take_vec_znx(self.n(), 1, size);
